@@ -21,6 +21,13 @@ fn thorough_modes() -> bool {
     std::env::var("VCHECK_C19_TWO_ACTIVITIES").is_ok()
 }
 
+/// Values for which both a refusal and acceptance are fine: application names and stream keys are
+/// embedded in longer status strings ("Successfully connected on app: ..."), so names within ~130
+/// bytes of the 65,535-byte AMF0 limit may legitimately be refused when such a string is built.
+fn may_refuse(kind: &str, v: u64) -> bool {
+    (kind == "app_len" || kind == "key_len") && v > 65_400
+}
+
 fn must_refuse(kind: &str, v: u64) -> bool {
     if kind.contains("chunk") {
         return v == 0 || v > 0x7FFF_FFFF;
@@ -172,9 +179,9 @@ fn run_cfg_case(kind: &str, v: u64) -> (String, String) {
                 _ => match run_default(sc) {
                     Ok(()) => ok("mini C02 passed"),
                     Err(e) => {
-                        // a refusal is an error that names the value as inexpressible (at construction or at
-                        // the call that first uses it); any other failure means the accepted value does not work
-                        let names_the_value = ["InvalidMaxChunkSize", "InvalidChunkSize", "NormalStringTooLong", "MessageTooLong", "EmptyObjectPropertyName"].iter().any(|k| e.contains(k));
+                        // for a value the protocol cannot express any error is a refusal; for an expressible value
+                        // an error means that the accepted value does not yield a working session
+                        let names_the_value = must_refuse(kind, v) || may_refuse(kind, v);
                         if names_the_value {
                             refused(e)
                         } else {
@@ -247,7 +254,7 @@ pub fn run(run: &Run) {
     let thorough = run.thorough();
     let chunk_vals: Vec<u64> = vec![0, 1, 2, 127, 128, 129, 4096, 65_535, 65_536, 0xFF_FFFF, 0x100_0000, 0x7FFF_FFFE, 0x7FFF_FFFF, 0x8000_0000, 0xFFFF_FFFF];
     let win_vals: Vec<u64> = vec![0, 1, 2, 0x8000_0000, 0xFFFF_FFFF];
-    let len_vals: Vec<u64> = vec![0, 1, 14, 65_535, 65_536];
+    let len_vals: Vec<u64> = vec![0, 1, 14, 65_000, 65_535, 65_536];
     let mut cases: Vec<(String, u64)> = Vec::new();
     for k in ["ser_chunk", "de_chunk", "server_chunk", "client_chunk", "peer_chunk_to_server", "peer_chunk_to_client"] {
         for &v in chunk_vals.iter() {
